@@ -13,6 +13,133 @@ use crate::{
     BuildError, NearestNeighbour, NearestNeighbourBox, NearestNeighbourIndex, NnError, Point,
 };
 
+/// Verification hook (only with `--cfg linfa_verif`): one `balltree.search` event per step of the
+/// best-first search `nn_helper` (start with the tree that is searched, node popped from the queue with
+/// its lower bound and the bounds it is compared with, break, children pushed or pruned, leaf point
+/// scanned and kept or rejected, end of the search).
+#[cfg(linfa_verif)]
+mod verif {
+    use super::BallTreeInner;
+    use linfa::Float;
+
+    pub(super) fn on() -> bool {
+        linfa::verif_hook::enabled()
+    }
+    pub(super) fn num<F: Float>(v: F) -> String {
+        match v.to_f64() {
+            Some(x) if x.is_finite() => format!("{:?}", x),
+            Some(x) if x == f64::INFINITY => "\"inf\"".to_string(),
+            _ => "\"nonfinite\"".to_string(),
+        }
+    }
+    fn nums<'a, F: Float>(v: impl Iterator<Item = &'a F>) -> String {
+        v.map(|x| num(*x)).collect::<Vec<_>>().join(",")
+    }
+    /// row positions held by the subtree, leaves from left to right, each leaf in storage order
+    pub(super) fn ids<F: Float>(node: &BallTreeInner<F>, out: &mut Vec<usize>) {
+        match node {
+            BallTreeInner::Leaf { points, .. } => out.extend(points.iter().map(|p| p.1)),
+            BallTreeInner::Branch { left, right, .. } => {
+                ids(left, out);
+                ids(right, out);
+            }
+        }
+    }
+    pub(super) fn ids_json<F: Float>(node: &BallTreeInner<F>) -> String {
+        let mut v = Vec::new();
+        ids(node, &mut v);
+        v.iter()
+            .map(|x| x.to_string())
+            .collect::<Vec<_>>()
+            .join(",")
+    }
+    fn tree<F: Float>(node: &BallTreeInner<F>) -> String {
+        match node {
+            BallTreeInner::Leaf {
+                center,
+                radius,
+                points,
+            } => format!(
+                "{{\"leaf\":true,\"c\":[{}],\"r\":{},\"pts\":[{}]}}",
+                nums(center.iter()),
+                num(*radius),
+                points
+                    .iter()
+                    .map(|p| p.1.to_string())
+                    .collect::<Vec<_>>()
+                    .join(",")
+            ),
+            BallTreeInner::Branch {
+                center,
+                radius,
+                left,
+                right,
+            } => format!(
+                "{{\"leaf\":false,\"c\":[{}],\"r\":{},\"l\":{},\"rt\":{}}}",
+                nums(center.iter()),
+                num(*radius),
+                tree(left),
+                tree(right)
+            ),
+        }
+    }
+    pub(super) fn start<F: Float>(root: &BallTreeInner<F>, k: usize, max_radius: F, lb: F) {
+        linfa::verif_hook::emit(&format!(
+            "\"ev\":\"balltree.search\",\"op\":\"start\",\"k\":{},\"maxr\":{},\"lb\":{},\"tree\":{}",
+            k,
+            num(max_radius),
+            num(lb),
+            tree(root)
+        ));
+    }
+    /// a node leaves the queue: its lower bound, the number of candidates kept and the worst of them
+    pub(super) fn pop<F: Float>(node: &BallTreeInner<F>, lb: F, outlen: usize, worst: Option<F>) {
+        linfa::verif_hook::emit(&format!(
+            "\"ev\":\"balltree.search\",\"op\":\"pop\",\"node\":[{}],\"lb\":{},\"outlen\":{},\"worst\":{}",
+            ids_json(node),
+            num(lb),
+            outlen,
+            worst.map(num).unwrap_or_else(|| "null".to_string())
+        ));
+    }
+    pub(super) fn mark(op: &str, n: usize) {
+        linfa::verif_hook::emit(&format!(
+            "\"ev\":\"balltree.search\",\"op\":\"{}\",\"n\":{}",
+            op, n
+        ));
+    }
+    /// the children of a branch: lower bounds, and whether each was pushed on the queue (else pruned)
+    pub(super) fn kids<F: Float>(
+        left: &BallTreeInner<F>,
+        dl: F,
+        pushed_l: bool,
+        right: &BallTreeInner<F>,
+        dr: F,
+        pushed_r: bool,
+    ) {
+        linfa::verif_hook::emit(&format!(
+            "\"ev\":\"balltree.search\",\"op\":\"kids\",\"l\":{{\"node\":[{}],\"lb\":{},\"pushed\":{}}},\"rt\":{{\"node\":[{}],\"lb\":{},\"pushed\":{}}}",
+            ids_json(left),
+            num(dl),
+            pushed_l,
+            ids_json(right),
+            num(dr),
+            pushed_r
+        ));
+    }
+    /// a point of a leaf: reduced distance, kept as candidate or not, candidates and worst of them afterwards
+    pub(super) fn point<F: Float>(idx: usize, d: F, kept: bool, outlen: usize, worst: Option<F>) {
+        linfa::verif_hook::emit(&format!(
+            "\"ev\":\"balltree.search\",\"op\":\"point\",\"idx\":{},\"d\":{},\"kept\":{},\"outlen\":{},\"worst\":{}",
+            idx,
+            num(d),
+            kept,
+            outlen,
+            worst.map(num).unwrap_or_else(|| "null".to_string())
+        ));
+    }
+}
+
 // Partition the points using median value
 fn partition<F: Float>(
     mut points: Vec<(Point<F>, usize)>,
@@ -213,20 +340,48 @@ impl<'a, F: Float, D: Distance<F>> BallTreeIndex<'a, F, D> {
                 self.tree.rdistance(point, &self.dist_fn),
                 &self.tree,
             ));
+            #[cfg(linfa_verif)]
+            if verif::on() {
+                verif::start(
+                    &self.tree,
+                    k,
+                    max_radius,
+                    queue.peek().map(|e| e.dist.0.raw()).unwrap_or_else(F::nan),
+                );
+            }
 
             while let Some(MinHeapElem {
                 dist: Reverse(dist),
                 elem,
             }) = queue.pop()
             {
+                #[cfg(linfa_verif)]
+                if verif::on() {
+                    verif::pop(
+                        elem,
+                        dist.raw(),
+                        out.len(),
+                        out.peek().map(|e| e.dist.raw()),
+                    );
+                }
                 if dist >= max_radius || (out.len() == k && dist >= out.peek().unwrap().dist) {
+                    #[cfg(linfa_verif)]
+                    if verif::on() {
+                        verif::mark("break", queue.len());
+                    }
                     break;
                 }
 
                 match elem {
                     BallTreeInner::Leaf { points, .. } => {
+                        #[cfg(linfa_verif)]
+                        if verif::on() {
+                            verif::mark("leaf", points.len());
+                        }
                         for p in points {
                             let dist = self.dist_fn.rdistance(point, p.0.reborrow());
+                            #[cfg(linfa_verif)]
+                            let mut kept = false;
                             if dist < max_radius
                                 && (out.len() < k || out.peek().unwrap().dist > dist)
                             {
@@ -234,6 +389,20 @@ impl<'a, F: Float, D: Distance<F>> BallTreeIndex<'a, F, D> {
                                 if out.len() > k {
                                     out.pop();
                                 }
+                                #[cfg(linfa_verif)]
+                                {
+                                    kept = true;
+                                }
+                            }
+                            #[cfg(linfa_verif)]
+                            if verif::on() {
+                                verif::point(
+                                    p.1,
+                                    dist,
+                                    kept,
+                                    out.len(),
+                                    out.peek().map(|e| e.dist.raw()),
+                                );
                             }
                         }
                     }
@@ -241,14 +410,33 @@ impl<'a, F: Float, D: Distance<F>> BallTreeIndex<'a, F, D> {
                         let dl = left.rdistance(point, &self.dist_fn);
                         let dr = right.rdistance(point, &self.dist_fn);
 
+                        #[cfg(linfa_verif)]
+                        let queue_len_0 = queue.len();
                         if dl <= max_radius {
                             queue.push(MinHeapElem::new(dl, left));
                         }
+                        #[cfg(linfa_verif)]
+                        let queue_len_1 = queue.len();
                         if dr <= max_radius {
                             queue.push(MinHeapElem::new(dr, right));
                         }
+                        #[cfg(linfa_verif)]
+                        if verif::on() {
+                            verif::kids(
+                                left,
+                                dl,
+                                queue_len_1 > queue_len_0,
+                                right,
+                                dr,
+                                queue.len() > queue_len_1,
+                            );
+                        }
                     }
                 }
+            }
+            #[cfg(linfa_verif)]
+            if verif::on() {
+                verif::mark("done", out.len());
             }
             Ok(out
                 .into_sorted_vec()
